@@ -91,6 +91,10 @@ def gen_config_programs(tier: str, rnd: random.Random) -> list[dict]:
                 bat_seqs = [(1, 1, 1), (0, 1, 0)] if ((quick or tag not in rep) and len(sub) > 1) else [(1, 1, 1), (0, 0, 0), (0, 1, 0), (1, 0, 1)]
                 for bs in bat_seqs:
                     progs.append(cfg_program("ET", tag, rated, sub, bs, rnd, 502 if (len(progs) % 5 == 0) else 8899))
+    # rated powers next to the class boundaries (and the extremes of the register), every tag class, all blocks answered
+    for tag in et_tags("quick"):
+        for rated in (0, 1, 14999, 15001, 24999, 25001, 65535):
+            progs.append(cfg_program("ET", tag, rated, (), (1, 0, 1), rnd, 502 if (len(progs) % 5 == 0) else 8899))
     for tag in dt_tags(tier):
         for refused, silent in (((), ()), (("meter",), ()), ((), ("meter",))):
             progs.append(cfg_program("DT", tag, 0, refused, (None, None, None), rnd, silent_names=silent))
